@@ -118,6 +118,12 @@ Definition spec_step (isw : Z) (k : cstate) (o : op) (obs : list evt) : cstate *
       fin (mkK (k_conn k) (kupd (mkCS id (k_win s) 0 (k_phase s) false (k_decl s) (k_sent s)) (k_sts k)) false)
     | _, _ => fin k
     end
+  | ORace id _ _ _ =>
+    match kfind id (k_sts k), hres obs id with
+    | Some s, Some 0 =>
+      fin (mkK (k_conn k) (kupd (mkCS id (k_win s) 0 (k_phase s) false (k_decl s) (k_sent s)) (k_sts k)) false)
+    | _, _ => fin k
+    end
   | _ => fin k
   end.
 
